@@ -1533,8 +1533,8 @@ prop(dict(
     shards={"quick": 2, "thorough": 12},
     nontrivial=lambda c: True,
     class_of=lambda c: c["class"],
-    rule="GROWTH: frames of H264 NAL units / AV1 OBUs (sizes around the per-packet budget) x MTU x start sequence number (incl. the wrap) through the whole sending pipeline "
-         "(payloader -> Packetizer -> Packet.Marshal); the wire bytes are read by the specification alone (RtpWire!Parse, then H264!RefDepack / AV1Loss!RefRxR) and by the library's own receiver",
+    rule="GROWTH: frames of H264 NAL units / AV1 OBUs / VP8 frames / Opus packets (sizes around the per-packet budget) x MTU x start sequence number (incl. the wrap) through the whole sending pipeline "
+         "(payloader -> Packetizer -> Packet.Marshal); the wire bytes are read by the specification alone (RtpWire!Parse, then H264!RefDepack / AV1Loss!RefRxR / VP8!RefDecode) and by the library's own receiver",
     assumptions=COMMON_ASSUME + ["not one of the listed properties: findings are reported in DESIGN.md 9.7, never as a listed property's violation"],
 ))
 
